@@ -21,6 +21,7 @@ def site(files: dict, meta: str, cargs=None, body="Project text\n", name="proj.m
                 f.write(text)
         os.makedirs(pd, exist_ok=True)
         pf = os.path.join(pd, name)
+        os.makedirs(os.path.dirname(pf), exist_ok=True)
         with open(pf, "w") as f:
             f.write("---\nproject: demo\npreprocess: false\n" + meta + "---\n\n" + body)
         env = dict(os.environ, FORD_DEBUGGING="1", PYTHONHASHSEED="0")
